@@ -513,10 +513,10 @@ def prim_element(rng, depth, html, force=None):
     """(abbreviation, groups, has_child_operator) of one element whose id / class values may carry fields."""
     entries = []                     # (attribute name, group or None) in the order the values are first written
 
-    def put(name, grp):
+    def put(name, grp, empty=False):
         for e in entries:
-            if e[0] == name:         # class given twice (shorthand + brackets): one merged value
-                if grp:
+            if e[0] == name:         # class given twice (shorthand + brackets): one merged value (not empty: no caret)
+                if grp and not empty:
                     e[1] = (e[1] or []) + grp
                 return
         entries.append([name, grp])
@@ -560,7 +560,7 @@ def prim_element(rng, depth, html, force=None):
             put(n, None)
         elif k in ('class-empty', 'id-empty'):
             parts.append('%s=%s' % (n, rng.choice(['""', "''"])))
-            put(n, [0])
+            put(n, [0], empty=True)
         elif k == 'empty':
             parts.append(n)
             put(n, [0])
